@@ -5,6 +5,14 @@
    rc4 <key> <data>
    open <std> <V> <R> <P> <O> <U> <Length> <cf> <stmf> <strf> <em> <OE> <UE> <id0> <pw>
    getobj <loc> <objid> <genno> <tokens ...>
+   select <isMetadata>               decision table of decrypt for the handler of the last `open`
+   unpad <data>                      unpad_aes
+   kdf.key <R> <length> <p> <O> <id0> <em> <pw>   compute_encryption_key
+   kdf.u <R> <id0> <key>             compute_u
+   kdf.recover <R> <length> <O> <pw> the user password authenticate_owner_password recovers from O
+   kdf.hash <R> <pw> <salt> <vector> _password_hash
+   spec.select <v4plus> <em> <isStream> <isMeta> <stmf> <strf>   ISO 7.6.5 decision (twin of c10_keys.table_7_6_5)
+   objkey <rc4|aes128> <key> <objid> <genno>    per-object key
    spec.enc <method> <key> <objid> <genno> <iv> <data>
    spec.derive234 <R> <length> <P> <id0> <em> <paddedUser> <paddedOwner> <tail>
    spec.derive56 <R> <key> <up> <op> <uv> <uk> <ov> <ok>
@@ -193,6 +201,49 @@ def step (st : St) (line : String) : St × String :=
       let r2 := getobjSt (tablePrims st.table) h false r.2.1 loc objid genno o
       (st, showL p1 ++ " | " ++ showL p2 ++ " | " ++ showL (r2.2.2.filter Call.isStr))
     | _, _, _, _, _ => (st, "bad-op")
+  | ["select", im] =>
+    match st.handler with
+    | some h =>
+      (st, match selectMethod h (im == "1") with
+           | some m => m.name
+           | none => "none")
+    | none => (st, "bad-op")
+  | ["spec.select", v4, em, isStream, isMeta, stmf, strf] =>
+    match parseMethod stmf, parseMethod strf with
+    | some a, some b => (st, (specSelect (v4 == "1") (em == "1") (isStream == "1") (isMeta == "1") a b).name)
+    | _, _ => (st, "bad-op")
+  | ["kdf.key", r, len, p, o, id0, em, pw] =>
+    match r.toInt?, len.toNat?, p.toNat?, bytesOfHex o, bytesOfHex id0, bytesOfHex pw with
+    | some r, some len, some p, some o, some id0, some pw =>
+      let prm : Params := { r := r, o := o, docid0 := id0, encryptMetadata := em == "1" }
+      (st, hexOrDash (computeEncryptionKey (tablePrims st.table) prm len p pw))
+    | _, _, _, _, _, _ => (st, "bad-op")
+  | ["kdf.u", r, id0, key] =>
+    match r.toInt?, bytesOfHex id0, bytesOfHex key with
+    | some r, some id0, some key =>
+      (st, hexOrDash (computeU (tablePrims st.table) { r := r, docid0 := id0 } key))
+    | _, _, _ => (st, "bad-op")
+  | ["kdf.recover", r, len, o, pw] =>
+    match r.toInt?, len.toNat?, bytesOfHex o, bytesOfHex pw with
+    | some r, some len, some o, some pw =>
+      (st, hexOrDash (recoverUser (tablePrims st.table) { r := r, o := o } len pw))
+    | _, _, _, _ => (st, "bad-op")
+  | ["kdf.hash", r, pw, salt, vec] =>
+    match r.toInt?, bytesOfHex pw, bytesOfHex salt, bytesOfHex vec with
+    | some r, some pw, some salt, some vec =>
+      (st, hexOrDash (passwordHash (tablePrims st.table) r pw salt vec))
+    | _, _, _, _ => (st, "bad-op")
+  | ["unpad", d] =>
+    match bytesOfHex d with
+    | some d => (st, hexOrDash (unpadAes d))
+    | none => (st, "bad-op")
+  | ["objkey", m, key, objid, genno] =>
+    match parseMethod m, bytesOfHex key, objid.toNat?, genno.toNat? with
+    | some .rc4, some key, some objid, some genno =>
+      (st, hexOrDash (objKeyRc4 (tablePrims st.table) key objid genno))
+    | some .aes128, some key, some objid, some genno =>
+      (st, hexOrDash (objKeyAes (tablePrims st.table) key objid genno))
+    | _, _, _, _ => (st, "bad-op")
   | ["spec.enc", m, key, objid, genno, iv, data] =>
     match parseMethod m, bytesOfHex key, objid.toNat?, genno.toNat?, bytesOfHex iv, bytesOfHex data with
     | some m, some key, some objid, some genno, some iv, some data =>
